@@ -90,6 +90,7 @@ fn real_names(tree: &Expr) -> Vec<String> {
                             if let lipe_find_parser::ast::FormatElement::Field(rf) = &real[0] {
                                 out.push(ident(&format!("{rf:?}")));
                             }
+                            out.push(speclib::words::field_text(x));
                         }
                     }
                 }
@@ -100,6 +101,16 @@ fn real_names(tree: &Expr) -> Vec<String> {
                     // Debug of Expression wraps leaves as Test(..)/Action(..)/Global(..)/Positional(..)
                     let inner = d.splitn(2, '(').nth(1).unwrap_or(&d);
                     out.push(ident(inner));
+                }
+                // the command-line keyword names the construct just as well
+                let kw = match l {
+                    Expr::Test(t) => speclib::words::test_words(t),
+                    Expr::Action(a) => speclib::words::action_words(a),
+                    Expr::Global(g) => Some(speclib::words::global_words(g)),
+                    _ => None,
+                };
+                if let Some(w) = kw.and_then(|w| w.into_iter().next()) {
+                    out.push(w);
                 }
             }
         }
@@ -177,7 +188,8 @@ pub fn check(tree: &Expr, acc: &mut Acc) {
             acc.count("refused", 1);
             acc.outcome(e);
             let names = real_names(tree);
-            if e.trim().is_empty() || !names.iter().any(|n| !n.is_empty() && e.contains(n.as_str())) {
+            let el = e.to_lowercase();
+            if e.trim().is_empty() || !names.iter().any(|n| !n.is_empty() && el.contains(&n.to_lowercase())) {
                 acc.violate(Violation::new(
                     "C12:error-does-not-name-the-construct",
                     format!("compile({}) failed with {e:?}, which names none of {names:?}", tree.show()),
